@@ -103,14 +103,25 @@ def layer_of(model, r):
     return None, None
 
 
+def is_primary(model, obj) -> bool:
+    """save() writes the primary resource only (by design); objects of referenced libraries are left alone"""
+    try:
+        return model._loader.find_fragment(obj._element).parts[0] == "\0"
+    except Exception:  # noqa: BLE001
+        return False
+
+
 def pick(model, r, *classes):
     for cls in r.sample(list(classes), len(classes)):
         try:
             objs = model.search(cls)
         except Exception:  # noqa: BLE001
             continue
-        if len(objs):
-            return objs[r.randrange(len(objs))]
+        n = len(objs)
+        for _ in range(min(n, 8)):
+            o = objs[r.randrange(n)]
+            if is_primary(model, o):
+                return o
     return None
 
 
@@ -196,7 +207,7 @@ def do_op(model, r: random.Random, neutral, created: list, log: list):
             return
         c.constrained_elements = [x for x in (pick(model, r, *FUNC), pick(model, r, *COMP)) if x is not None]
     elif op in ("spec_set", "spec_lang", "spec_del"):
-        cs = [c for c in model.search("Constraint")]
+        cs = [c for c in model.search("Constraint") if is_primary(model, c)]
         r.shuffle(cs)
         for c in cs[:40]:
             try:
@@ -552,6 +563,7 @@ def run(chk: lib.Check):
         "raw-lxml snapshot: tags, attributes, text, tails, child order, declared prefixes of xsi:type values, comments around the root; "
         "update_namespaces inputs/outputs of every save are replayed on the Coq model" % len(PIECES))
     chk.assumptions += [
+        "save() writes the primary resource only: histories edit objects of the primary resource; an edit to an object of a referenced library is accepted by the API and silently not persisted (observed on 'Library Project', by design of MelodyLoader.save)",
         "lxml's parser is represented by the reference reader (sampled in C01); the API-level claim 'edits keep trees inside the writer's domain' is checked by the differential run only",
         "a history in which the API refused an operation and whose mismatch disappears without that operation is not counted (partial state after a refused edit is C04/C09's subject)",
     ]
